@@ -55,6 +55,7 @@ type psSessPlan struct {
 	pre            pause
 	maxRecv        int // -1 unlimited; manual >= 0; iterator >= 1
 	trigger        bool
+	preCancel      int // iterator-cancelled-first: 0 cancel after SubscribeContext returned, 1 before the call, 2 racing the call
 	trigSend       int // canceller waits for this (global) Send index to be invoked ...
 	trigStall      int // ... then stalls this many steps, then withdraws the subscription
 	stallAfterRecv int // manual: steps between the receive and Wait (slow subscriber); iterator: steps in the loop body
@@ -200,6 +201,10 @@ func drawPSSession(prof psProfile, totalSends int) psSessPlan {
 	if s.kind == psIterNeverRun {
 		s.cancelPause = drawPause()
 	}
+	if s.kind == psIterCancelFirst && simrt.Chance(2, 3) {
+		s.preCancel = simrt.DrawRange(1, 2)
+		s.trigStall = simrt.DrawRange(0, 25)
+	}
 	return s
 }
 
@@ -298,6 +303,16 @@ loop:
 func (r *psRun) iterSubscribe(s *psSub) {
 	ctx, cancel := context.WithCancel(context.Background())
 	s.cancel = cancel
+	switch s.plan.preCancel {
+	case 1: // SubscribeContext is called with a context that is already cancelled
+		r.cancelIter(s, "subscribe_with_cancelled_ctx")
+	case 2: // the cancellation races the SubscribeContext call itself (which may wait behind a Send)
+		k := s.plan.trigStall
+		go func() {
+			simrt.Stall(k)
+			r.cancelIter(s, "cancel_races_subscribe")
+		}()
+	}
 	s.state = "subscribing (SubscribeContext)"
 	s.subInv = simrt.Stamp()
 	s.seq = r.x.SubscribeContext(ctx)
